@@ -362,6 +362,11 @@ pub trait Simple: Merge<Self> + LatticeFrom<Self> + Clone + PartialEq + PartialO
     /// a start value (`nb` false: the bottom, where the type has one)
     fn initial(sim: &mut Sim, d: u8, nb: bool) -> Self;
     fn gen_delta(sim: &mut Sim, d: u8, cur: &Self) -> Self;
+    /// `Point` only: a value that must not be mergeable into `cur`
+    const HAS_INEQUAL_POINT: bool = false;
+    fn inequal(_sim: &mut Sim, _d: u8, _cur: &Self) -> Option<Self> {
+        None
+    }
 }
 pub struct SimpleGen<T> {
     d: u8,
@@ -406,6 +411,15 @@ impl<T: Simple> LatticeGen for SimpleGen<T> {
     fn show_msg(m: &T) -> String {
         m.canon()
     }
+    const HAS_INEQUAL_POINT: bool = T::HAS_INEQUAL_POINT;
+    fn inequal_point_msg(&self, sim: &mut Sim, st: &T) -> Option<T> {
+        T::inequal(sim, self.d, st)
+    }
+}
+
+/// A point value different from `x` (domain 0..d, d >= 2).
+fn other_point(sim: &mut Sim, d: u8, x: u8) -> u8 {
+    (x + sim.choose("point_off", 1, d as u64 - 1) as u8) % d
 }
 
 impl Simple for Max<u8> {
@@ -451,6 +465,10 @@ impl Simple for Point<u8, ()> {
     /// documented precondition: only equal values are ever merged
     fn gen_delta(_sim: &mut Sim, _d: u8, cur: &Self) -> Self {
         Point::new(cur.val)
+    }
+    const HAS_INEQUAL_POINT: bool = true;
+    fn inequal(sim: &mut Sim, d: u8, cur: &Self) -> Option<Self> {
+        Some(Point::new(other_point(sim, d, cur.val)))
     }
 }
 impl Simple for () {
@@ -1059,5 +1077,255 @@ impl LatticeGen for UnionFindGen {
     }
     fn show_msg(m: &UfMsg) -> String {
         on!(m, UfMsg[H, B, V, A, O, S], |m| m.canon())
+    }
+}
+
+// =============================================================================================
+// Point nested in other lattices. Legal usage: within one run equal positions always carry equal
+// point values (Pair / derived field: one value per run; DomPair: one value per key, as in a
+// last-writer-wins register whose timestamps are unique per written value). The C01 clause
+// "point lattices only ever merge equal values" is exercised by `inequal_point_msg`.
+// =============================================================================================
+
+type Pt = Point<u8, ()>;
+
+// ---- DomPair<Max<u8>, Point>
+pub type DpSt = DomPair<Max<u8>, Pt>;
+pub struct DomPairPointGen {
+    d: u8,
+    salt: u8,
+    inits: Vec<DpSt>,
+}
+impl DomPairPointGen {
+    /// the one value ever written under timestamp `key` in this run
+    fn val_of(&self, key: u8) -> u8 {
+        (key.wrapping_mul(3).wrapping_add(self.salt)) % self.d
+    }
+}
+impl LatticeGen for DomPairPointGen {
+    const NAME: &'static str = "dom_pair_point";
+    type State = DpSt;
+    type Msg = DpSt;
+    fn new(sim: &mut Sim, n: usize) -> Self {
+        let d = dom(sim);
+        let salt = item(sim, d);
+        let mut g = DomPairPointGen { d, salt, inits: vec![] };
+        let nb = nonbottom_start(sim);
+        g.inits = (0..n)
+            .map(|_| {
+                let key = if nb { sim.choose("key", 0, 2) as u8 } else { 0 };
+                DomPair::new(Max::new(key), Point::new(g.val_of(key)))
+            })
+            .collect();
+        g
+    }
+    fn init(&self, i: usize) -> DpSt {
+        self.inits[i].clone()
+    }
+    fn delta(&mut self, sim: &mut Sim, _i: usize, st: &DpSt) -> DpSt {
+        let cur = *st.as_reveal_ref().0.as_reveal_ref();
+        let key = match sim.weighted("key_kind", &[3, 3, 1]) {
+            0 => cur,
+            1 => cur.saturating_add(1),
+            _ => sim.choose("key", 0, 4) as u8,
+        };
+        DomPair::new(Max::new(key), Point::new(self.val_of(key)))
+    }
+    fn snapshot(&self, _sim: &mut Sim, st: &DpSt) -> DpSt {
+        LatticeFrom::lattice_from(st.clone())
+    }
+    fn merge(st: &mut DpSt, m: DpSt) -> bool {
+        Merge::merge(st, m)
+    }
+    fn eq(a: &DpSt, b: &DpSt) -> bool {
+        a == b
+    }
+    fn msg_le(m: &DpSt, st: &DpSt) -> Option<bool> {
+        Some(m <= st)
+    }
+    fn show(st: &DpSt) -> String {
+        st.canon()
+    }
+    fn show_msg(m: &DpSt) -> String {
+        m.canon()
+    }
+    const HAS_INEQUAL_POINT: bool = true;
+    /// equal key (so the value lattices are merged), different point value
+    fn inequal_point_msg(&self, sim: &mut Sim, st: &DpSt) -> Option<DpSt> {
+        let (k, v) = st.as_reveal_ref();
+        Some(DomPair::new(Max::new(*k.as_reveal_ref()), Point::new(other_point(sim, self.d, v.val))))
+    }
+}
+
+// ---- Pair<SetUnion<_>, Point>
+pub type PpSt = Pair<SetUnionHashSet<u8>, Pt>;
+#[derive(Clone)]
+pub enum PpMsg {
+    Full(PpSt),
+    Alt(Pair<SetUnionBTreeSet<u8>, Pt>),
+    Small(Pair<SetUnionSingletonSet<u8>, Pt>),
+}
+pub struct PairPointGen {
+    d: u8,
+    inits: Vec<PpSt>,
+}
+impl LatticeGen for PairPointGen {
+    const NAME: &'static str = "pair_point";
+    type State = PpSt;
+    type Msg = PpMsg;
+    fn new(sim: &mut Sim, n: usize) -> Self {
+        let d = dom(sim);
+        let p = item(sim, d);
+        let nb = nonbottom_start(sim);
+        let inits = (0..n)
+            .map(|_| Pair::new(SetUnion::new(if nb { subset(mask(sim, d), d) } else { vec![] }.into_iter().collect()), Point::new(p)))
+            .collect();
+        PairPointGen { d, inits }
+    }
+    fn init(&self, i: usize) -> PpSt {
+        self.inits[i].clone()
+    }
+    fn delta(&mut self, sim: &mut Sim, _i: usize, st: &PpSt) -> PpMsg {
+        PpMsg::Small(Pair::new(SetUnion::new(SingletonSet(item(sim, self.d))), Point::new(st.b.val)))
+    }
+    fn snapshot(&self, sim: &mut Sim, st: &PpSt) -> PpMsg {
+        if sim.flip("wire_alt", 1, 2) { PpMsg::Alt(LatticeFrom::lattice_from(st.clone())) } else { PpMsg::Full(st.clone()) }
+    }
+    fn merge(st: &mut PpSt, m: PpMsg) -> bool {
+        on!(m, PpMsg[Full, Alt, Small], |m| Merge::merge(st, m))
+    }
+    fn eq(a: &PpSt, b: &PpSt) -> bool {
+        a == b
+    }
+    fn msg_le(m: &PpMsg, st: &PpSt) -> Option<bool> {
+        on!(m, PpMsg[Full, Alt, Small], |m| Some(m <= st))
+    }
+    fn show(st: &PpSt) -> String {
+        st.canon()
+    }
+    fn show_msg(m: &PpMsg) -> String {
+        on!(m, PpMsg[Full, Alt, Small], |m| m.canon())
+    }
+    const HAS_INEQUAL_POINT: bool = true;
+    fn inequal_point_msg(&self, sim: &mut Sim, st: &PpSt) -> Option<PpMsg> {
+        Some(PpMsg::Small(Pair::new(SetUnion::new(SingletonSet(item(sim, self.d))), Point::new(other_point(sim, self.d, st.b.val)))))
+    }
+}
+
+// ---- #[derive(Lattice)] struct with a Point field in the middle
+#[derive(Clone, Debug, Lattice)]
+pub struct DerivedPoint<S> {
+    pub keys: SetUnion<S>,
+    pub tag: Point<u8, ()>,
+    pub epoch: Max<u8>,
+}
+impl<S: Canon> Canon for DerivedPoint<S> {
+    fn canon(&self) -> String {
+        format!("DerivedPoint{{keys:{},tag:{},epoch:{}}}", self.keys.canon(), self.tag.canon(), self.epoch.canon())
+    }
+}
+pub type DqSt = DerivedPoint<BTreeSet<u8>>;
+#[derive(Clone)]
+pub enum DqMsg {
+    Full(DqSt),
+    Alt(DerivedPoint<HashSet<u8>>),
+    Small(DerivedPoint<OptionSet<u8>>),
+}
+pub struct DerivedPointGen {
+    d: u8,
+    inits: Vec<DqSt>,
+}
+impl LatticeGen for DerivedPointGen {
+    const NAME: &'static str = "derived_point";
+    type State = DqSt;
+    type Msg = DqMsg;
+    fn new(sim: &mut Sim, n: usize) -> Self {
+        let d = dom(sim);
+        let p = item(sim, d);
+        let nb = nonbottom_start(sim);
+        let inits = (0..n)
+            .map(|_| DerivedPoint {
+                keys: SetUnion::new(if nb { subset(mask(sim, d), d) } else { vec![] }.into_iter().collect()),
+                tag: Point::new(p),
+                epoch: Max::new(if nb { sim.choose("epoch", 0, 3) as u8 } else { 0 }),
+            })
+            .collect();
+        DerivedPointGen { d, inits }
+    }
+    fn init(&self, i: usize) -> DqSt {
+        self.inits[i].clone()
+    }
+    fn delta(&mut self, sim: &mut Sim, _i: usize, st: &DqSt) -> DqMsg {
+        let k = if sim.flip("none", 1, 3) { None } else { Some(item(sim, self.d)) };
+        DqMsg::Small(DerivedPoint { keys: SetUnion::new(OptionSet(k)), tag: Point::new(st.tag.val), epoch: Max::new(sim.choose("epoch", 0, 3) as u8) })
+    }
+    fn snapshot(&self, sim: &mut Sim, st: &DqSt) -> DqMsg {
+        if sim.flip("wire_alt", 1, 2) { DqMsg::Alt(LatticeFrom::lattice_from(st.clone())) } else { DqMsg::Full(st.clone()) }
+    }
+    fn merge(st: &mut DqSt, m: DqMsg) -> bool {
+        on!(m, DqMsg[Full, Alt, Small], |m| Merge::merge(st, m))
+    }
+    fn eq(a: &DqSt, b: &DqSt) -> bool {
+        a == b
+    }
+    fn msg_le(m: &DqMsg, st: &DqSt) -> Option<bool> {
+        on!(m, DqMsg[Full, Alt, Small], |m| Some(m <= st))
+    }
+    fn show(st: &DqSt) -> String {
+        st.canon()
+    }
+    fn show_msg(m: &DqMsg) -> String {
+        on!(m, DqMsg[Full, Alt, Small], |m| m.canon())
+    }
+    const HAS_INEQUAL_POINT: bool = true;
+    fn inequal_point_msg(&self, sim: &mut Sim, st: &DqSt) -> Option<DqMsg> {
+        let k = Some(item(sim, self.d));
+        Some(DqMsg::Small(DerivedPoint { keys: SetUnion::new(OptionSet(k)), tag: Point::new(other_point(sim, self.d, st.tag.val)), epoch: Max::new(sim.choose("epoch", 0, 3) as u8) }))
+    }
+}
+
+// =============================================================================================
+// WithTop over inner lattices that have a reachable top of their own: `Some(inner top)` is still
+// strictly below the explicit top `None` (WithTop's PartialEq/PartialOrd do not collapse them).
+// =============================================================================================
+
+impl Simple for WithTop<Max<bool>> {
+    const NAME: &'static str = "with_top_max_bool";
+    fn initial(sim: &mut Sim, _d: u8, nb: bool) -> Self {
+        WithTop::new(Some(Max::new(nb && sim.flip("true", 1, 2))))
+    }
+    fn gen_delta(sim: &mut Sim, _d: u8, _cur: &Self) -> Self {
+        match sim.weighted("delta_kind", &[3, 4, 3]) {
+            0 => WithTop::new(Some(Max::new(false))),
+            1 => WithTop::new(Some(Max::new(true))), // the inner top
+            _ => WithTop::new(None),                 // the explicit top
+        }
+    }
+}
+impl Simple for WithTop<Min<u32>> {
+    const NAME: &'static str = "with_top_min_u32";
+    fn initial(sim: &mut Sim, _d: u8, nb: bool) -> Self {
+        WithTop::new(Some(Min::new(if nb { *sim.pick("val", &[u32::MAX, 2, 1, 0]) } else { u32::MAX })))
+    }
+    fn gen_delta(sim: &mut Sim, _d: u8, _cur: &Self) -> Self {
+        match sim.weighted("delta_kind", &[2, 2, 3, 3]) {
+            0 => WithTop::new(Some(Min::new(2))),
+            1 => WithTop::new(Some(Min::new(1))),
+            2 => WithTop::new(Some(Min::new(0))), // the inner top
+            _ => WithTop::new(None),              // the explicit top
+        }
+    }
+}
+impl Simple for WithTop<WithTop<SetUnionHashSet<u8>>> {
+    const NAME: &'static str = "with_top_nested";
+    fn initial(sim: &mut Sim, d: u8, nb: bool) -> Self {
+        WithTop::new(Some(WithTop::new(Some(SetUnion::new(if nb { subset(mask(sim, d), d) } else { vec![] }.into_iter().collect())))))
+    }
+    fn gen_delta(sim: &mut Sim, d: u8, _cur: &Self) -> Self {
+        match sim.weighted("delta_kind", &[4, 3, 3]) {
+            0 => WithTop::new(Some(WithTop::new(Some(SetUnion::new(subset(mask(sim, d), d).into_iter().collect()))))),
+            1 => WithTop::new(Some(WithTop::new(None))), // the inner top
+            _ => WithTop::new(None),                     // the explicit top
+        }
     }
 }
